@@ -45,8 +45,9 @@ Fixpoint shape_nodes (fuel : nat) (s : sexp) : list bool :=
       | 1%Z => [false]
       | 3%Z | 9%Z | 10%Z => kids
       | 4%Z | 5%Z => kids ++ [false]
-      | 6%Z => match tl (as_list s) with [] => [false] | _ => kids end
+      | 6%Z | 11%Z => match tl (as_list s) with [] => [false] | _ => kids end
       | 7%Z | 8%Z => shape_nodes f (nth_s 2 s)
+      | 12%Z => shape_nodes f (nth_s (if Z.eqb (as_Z (nth_s 1 s)) 0 then 2 else 3) s)
       | _ => [true]
       end
   end.
